@@ -83,3 +83,52 @@ def run_part(ctx):
         elif items != fitems[:n]:
             ctx.fail("bin-trunc-fabricated", "%s path on %s cut at %d returned %s, the complete document's first %d fields are %s" % (p, d.hex(), k, o[:120], n, " ".join(fitems[:n])[:120]), [cases[j]], [o], " ".join(fitems[:n]))
     ctx.count("bin_truncation_cases", len(cases))
+    run_text_de(ctx)
+
+
+def run_text_de(ctx):
+    """text deserializer paths (slice, tape, reader) on flat documents cut at every offset: an Ok result agrees with the complete
+    document on every completed field; only the last returned field may be shorter (a cut scalar), never longer or different"""
+    import re
+    rng = ctx.rng
+    words = [b"a", b"key_1", b"x" * 16, b"1444.11.11", b"caf\xc3\xa9", b"yes", b"-5", b"b4"]
+    cases, meta = [], []
+    paths = ["slice", "tape", "reader:64:-", "reader:17:1,1,1,1,1,1,1,1,1,1,1,1,1,1,1,1,1,1,1,1"]
+    for _ in range(ctx.scale(30, 300)):
+        parts = []
+        for _ in range(rng.randrange(1, 5)):
+            k = rng.choice(words)
+            v = rng.choice(words) if rng.random() < 0.6 else b'"' + rng.choice([b"q r", b"s\\\"t", b"#no", b"{x}", b""]) + b'"'
+            parts.append(k + rng.choice([b"=", b" = ", b"= "]) + v)
+        d = rng.choice([b" ", b"\n", b"\r\n\t", b" # c\n"]).join(parts) + rng.choice([b"", b"\n", b" "])
+        for k in range(len(d) + 1):
+            for p in paths:
+                cases.append("\t".join(["de.text", p, "w1252", "map(str)", hexs(d[:k])])); meta.append((d, k, p))
+    impl, _ = ctx.correspond("text_de_truncations", cases, model=False, nontrivial=lambda c, i: i.startswith("(map ("))
+    base = len(impl) - len(cases)
+    full = {}
+    for j, (d, k, p) in enumerate(meta):
+        if k == len(d) and p == "slice":
+            full[d] = impl[base + j]
+    pair = re.compile(r"^\((\S+) \(str (\S+)\)\)$")
+    for j, (d, k, p) in enumerate(meta):
+        o = impl[base + j]
+        if o in ("PANIC", "ABORT", "HANG"):
+            ctx.fail("text-de-trunc-crash", "%s path on %r cut at %d: %s" % (p, d, k, o), [cases[j]], [o]); continue
+        items, ref = sexp_items(o), sexp_items(full.get(d, ""))
+        if items is None or ref is None:
+            continue
+        bad = None
+        if len(items) > len(ref):
+            bad = "more fields than the complete document"
+        else:
+            for n, it in enumerate(items):
+                if it == ref[n]:
+                    continue
+                a, b = pair.match(it), pair.match(ref[n])
+                last = n == len(items) - 1
+                if not (last and a and b and a.group(1) == b.group(1) and b.group(2).startswith(a.group(2).rstrip("-")) ):
+                    bad = "field %d is %s, the complete document has %s" % (n, it, ref[n]); break
+        if bad:
+            ctx.fail("text-de-trunc-fabricated", "%s path on %r cut at %d: %s (result %s)" % (p, d, k, bad, o[:160]), [cases[j]], [o], full.get(d))
+    ctx.count("text_de_truncation_cases", len(cases))
